@@ -2253,4 +2253,99 @@ example : TextSwitchFree (α := Rat) toyCharSpec
     [.metadata (buildText 3 [tk .word "[mode]".toList]) (buildText 11 [tk .word "text".toList])] = false := by decide
 -- ===== end w6c17docwf (part 1) =====
 
+-- ===== w6c17docwf (part 2): the recipe-level theorems at the character table of the real lexer =====
+/-! Every recipe-level theorem of this file is stated for every `Env` (any extension bits, any converter);
+    the ones below restate those that carry a side condition on the character table at the table generated
+    from the real lexer (`env.cs = realCharSpec`: true of `Driver.realEnv ext conv` for every `ext`, `conv`,
+    in particular of the canonical parser `realEnv 0 0` and the extended parser `realEnv 3818 1`), with
+    the side conditions (`CrlfSpec`, `UwsNL`, `uws ' '`) proved for that table, not assumed.
+    `C17_insertion_same_recipe`, `C17_insertion_recipe_wellformed_partial`, `C17_events_loose_same_recipe(_modes_off)`
+    have no table side condition.  `Props/Tables.lean` instantiates them at the two parsers. -/
+
+theorem C17_crlf_recipe_real {α : Type} [Arith α] (env : Env) (hreal : env.cs = realCharSpec)
+    (s : List Char) (hs : CrlfSafe s)
+    (hfree : TextSwitchFree env.cs (pullEvents (α := α) env.cs env.ext s).1.toList = true) :
+    ResSim env.cs.uws (parseRecipe (α := α) env (crlf s)) (parseRecipe (α := α) env s) :=
+  C17_crlf_recipe env (hcs := hreal ▸ C17_crlfSpec_real) (hu := hreal ▸ C17_uwsNL_real) s hs hfree
+
+theorem C17_crlf_same_recipe_real {α : Type} [Arith α] (ws : Char → Bool) (env : Env) (hreal : env.cs = realCharSpec)
+    (s : List Char) (hs : CrlfSafe s)
+    (hfree : TextSwitchFree env.cs (pullEvents (α := α) env.cs env.ext s).1.toList = true) :
+    SameRecipe ws (parseRecipe (α := α) env (crlf s)) (parseRecipe (α := α) env s) :=
+  C17_crlf_same_recipe ws env (hcs := hreal ▸ C17_crlfSpec_real) (hu := hreal ▸ C17_uwsNL_real) s hs hfree
+
+theorem C17_crlf_same_recipe_modes_off_real {α : Type} [Arith α] (ws : Char → Bool) (env : Env)
+    (hreal : env.cs = realCharSpec) (hm : env.ext.has Gen.EXT_MODES = false) (s : List Char) (hs : CrlfSafe s) :
+    SameRecipe ws (parseRecipe (α := α) env (crlf s)) (parseRecipe (α := α) env s) :=
+  C17_crlf_same_recipe_modes_off ws env (hcs := hreal ▸ C17_crlfSpec_real) (hu := hreal ▸ C17_uwsNL_real) hm s hs
+
+theorem C17_extra_blank_line_source_same_recipe_real {α : Type} [Arith α] (ws : Char → Bool) (env : Env)
+    (hreal : env.cs = realCharSpec)
+    (u e0 e x : List Char) (L : List (List Tok)) (hlu : lex env.cs u = L.flatten) (hL : ∀ l ∈ L, IsLine l)
+    (hE0 : EmptyLine (lexFrom env.cs (utf8Len u) e0)) (hE : EmptyLine (lexFrom env.cs (utf8Len u + utf8Len e0) e))
+    (h1 : parseFrontmatter env.cs (u ++ (e0 ++ (e ++ x))) = none) (h2 : parseFrontmatter env.cs (u ++ (e0 ++ x)) = none)
+    (hfree : TextSwitchFree env.cs (pullEvents (α := α) env.cs env.ext (u ++ (e0 ++ x))).1.toList = true) :
+    SameRecipe ws (parseRecipe (α := α) env (u ++ (e0 ++ (e ++ x)))) (parseRecipe (α := α) env (u ++ (e0 ++ x))) :=
+  C17_extra_blank_line_source_same_recipe ws env (hu := hreal ▸ C17_uwsNL_real) u e0 e x L hlu hL hE0 hE h1 h2 hfree
+
+theorem C17_crlf_after_extra_blank_line_real {α : Type} [Arith α] (ws : Char → Bool) (env : Env)
+    (hreal : env.cs = realCharSpec)
+    (u e0 e x : List Char) (L : List (List Tok)) (hlu : lex env.cs u = L.flatten) (hL : ∀ l ∈ L, IsLine l)
+    (hE0 : EmptyLine (lexFrom env.cs (utf8Len u) e0)) (hE : EmptyLine (lexFrom env.cs (utf8Len u + utf8Len e0) e))
+    (h1 : parseFrontmatter env.cs (u ++ (e0 ++ (e ++ x))) = none) (h2 : parseFrontmatter env.cs (u ++ (e0 ++ x)) = none)
+    (hs : CrlfSafe (u ++ (e0 ++ (e ++ x))))
+    (hfree' : TextSwitchFree env.cs (pullEvents (α := α) env.cs env.ext (u ++ (e0 ++ (e ++ x)))).1.toList = true)
+    (hfree : TextSwitchFree env.cs (pullEvents (α := α) env.cs env.ext (u ++ (e0 ++ x))).1.toList = true) :
+    SameRecipe ws (parseRecipe (α := α) env (crlf (u ++ (e0 ++ (e ++ x))))) (parseRecipe (α := α) env (u ++ (e0 ++ x))) :=
+  C17_crlf_after_extra_blank_line ws env (hcs := hreal ▸ C17_crlfSpec_real) (hu := hreal ▸ C17_uwsNL_real)
+    u e0 e x L hlu hL hE0 hE h1 h2 hs hfree' hfree
+
+theorem C17_blank_line_before_frontmatter_same_recipe_real {α : Type} [Arith α] (ws : Char → Bool) (env : Env)
+    (hreal : env.cs = realCharSpec) (e : List Char) (B Y : List (List Char)) (f1 f2 X : List Char)
+    (he : StrLine e ∧ (trim env.cs.uws e).isEmpty = true)
+    (hB : ∀ l ∈ B, StrLine l ∧ (trim env.cs.uws l).isEmpty = true)
+    (hf1 : StrLine f1 ∧ isFence env.cs f1 = true) (hY : ∀ l ∈ Y, StrLine l ∧ isFence env.cs l = false)
+    (hf2 : StrLine f2 ∧ isFence env.cs f2 = true)
+    (hfree : TextSwitchFree env.cs
+      (pullEvents (α := α) env.cs env.ext (B.flatten ++ (f1 ++ (Y.flatten ++ (f2 ++ X))))).1.toList = true) :
+    SameRecipe ws (parseRecipe (α := α) env (e ++ (B.flatten ++ (f1 ++ (Y.flatten ++ (f2 ++ X))))))
+      (parseRecipe (α := α) env (B.flatten ++ (f1 ++ (Y.flatten ++ (f2 ++ X))))) :=
+  C17_blank_line_before_frontmatter_same_recipe ws env (hu := hreal ▸ C17_uwsNL_real) e B Y f1 f2 X he hB hf1 hY hf2 hfree
+
+theorem C17_line_after_frontmatter_same_recipe_real {α : Type} [Arith α] (ws : Char → Bool) (env : Env)
+    (hreal : env.cs = realCharSpec) (e : List Char) (B Y : List (List Char)) (f1 f2 X : List Char)
+    (hB : ∀ l ∈ B, StrLine l ∧ (trim env.cs.uws l).isEmpty = true)
+    (hf1 : StrLine f1 ∧ isFence env.cs f1 = true) (hY : ∀ l ∈ Y, StrLine l ∧ isFence env.cs l = false)
+    (hf2 : StrLine f2 ∧ isFence env.cs f2 = true)
+    (hE : EmptyLine (lexFrom env.cs (utf8Len B.flatten + utf8Len f1 + utf8Len Y.flatten + utf8Len f2) e))
+    (hfree : TextSwitchFree env.cs
+      (pullEvents (α := α) env.cs env.ext (B.flatten ++ (f1 ++ (Y.flatten ++ (f2 ++ X))))).1.toList = true) :
+    SameRecipe ws (parseRecipe (α := α) env (B.flatten ++ (f1 ++ (Y.flatten ++ (f2 ++ (e ++ X))))))
+      (parseRecipe (α := α) env (B.flatten ++ (f1 ++ (Y.flatten ++ (f2 ++ X))))) :=
+  C17_line_after_frontmatter_same_recipe ws env (hu := hreal ▸ C17_uwsNL_real) e B Y f1 f2 X hB hf1 hY hf2 hE hfree
+
+theorem C17_filler_in_component_bodies_same_recipe_real {α : Type} [Arith α] (ws : Char → Bool) (env : Env)
+    (hreal : env.cs = realCharSpec) (pre' pre : List Tok) (docF : List (DocItemF × List Tok))
+    (doc : List (DocItem × List Tok)) (h : DocWF α env pre doc)
+    (hclean : ((docCleanF docF).map (·.1)).map DocItem.core = (doc.map (·.1)).map DocItem.core)
+    (hpre' : blankLinesOK pre' = true) (hok : ∀ d ∈ docF, d.1.OK env.cs env.ext)
+    (hseps : sepsOK (docF.map (·.2)) = true) (hw : WellSpelled env.cs (pre' ++ docSpecF docF))
+    (hfm : parseFrontmatter env.cs (render (pre' ++ docSpecF docF)) = none) :
+    SameRecipe ws (parseRecipe (α := α) env (render (pre' ++ docSpecF docF)))
+      (parseRecipe (α := α) env (render (pre ++ docSpec doc))) :=
+  C17_filler_in_component_bodies_same_recipe ws env (hsp := hreal ▸ tbl_uws_sp) pre' pre docF doc h hclean hpre' hok hseps hw hfm
+
+theorem C17_trailing_comment_on_single_line_blocks_same_recipe_real {α : Type} [Arith α] (ws : Char → Bool) (env : Env)
+    (hreal : env.cs = realCharSpec) (pre' pre : List Tok) (docF : List (DocItemF × List Tok))
+    (doc : List (DocItem × List Tok)) (h : DocWF α env pre doc)
+    (hclean : ((docCleanF docF).map (·.1)).map DocItem.core = (doc.map (·.1)).map DocItem.core)
+    (hpre' : blankLinesOK pre' = true) (hok : ∀ d ∈ docF, d.1.OK env.cs env.ext)
+    (hseps : sepsOK (docF.map (·.2)) = true) (hw : WellSpelled env.cs (pre' ++ docSpecF docF))
+    (hfm : parseFrontmatter env.cs (render (pre' ++ docSpecF docF)) = none) :
+    SameRecipe ws (parseRecipe (α := α) env (render (pre' ++ docSpecF docF)))
+      (parseRecipe (α := α) env (render (pre ++ docSpec doc))) :=
+  C17_trailing_comment_on_single_line_blocks_same_recipe ws env (hsp := hreal ▸ tbl_uws_sp) pre' pre docF doc h hclean hpre'
+    hok hseps hw hfm
+-- ===== end w6c17docwf (part 2) =====
+
 end Cook
